@@ -6,6 +6,9 @@ use std::io::{BufRead, Write};
 use std::panic::{catch_unwind, AssertUnwindSafe};
 use wire::Args;
 
+/// contributed manual op tables: add `mod manual_<tag>;` above and `manual_<tag>::dispatch` here
+pub static CONTRIB: &[fn(&str, &str, &mut Args) -> Option<String>] = &[];
+
 fn main() {
     std::panic::set_hook(Box::new(|_| {}));
     let stdin = std::io::stdin();
